@@ -23,6 +23,9 @@ CASE_TIMEOUT = 300.0
 def cfg_hook(rng, cfg, fam, i):
     if i % 2 == 0:
         cfg["cache"] = int(rng.choice([2048, 4096, 8192, 16384, 32768]))
+    if fam == "mixed-width":
+        cfg["optimise"] = "Size" if i % 2 else cfg.get("optimise")
+        cfg["cache"] = [4096, 16384, 65536, None][i % 4]
     if fam == "buffer-stress":
         # weights streamed through SRAM buffers in several unequal depth slices need the Performance strategy and room for a double buffer
         cfg["optimise"] = "Performance"
@@ -35,7 +38,7 @@ def cfg_hook(rng, cfg, fam, i):
 
 
 def gen_cases(tier, seed):
-    fams = ["stripe-stress", "buffer-stress", "lut-stress", "alias-stress", "exact-chain", "exact-dag", "cpu-mix", "approx-tail", "exact-chain-big", "stripe-stress", "buffer-stress", "lut-stress", "stripe-resize", "shared-weights", "buffer-stress"]
+    fams = ["stripe-stress", "buffer-stress", "lut-stress", "alias-stress", "exact-chain", "exact-dag", "cpu-mix", "approx-tail", "exact-chain-big", "stripe-stress", "buffer-stress", "lut-stress", "stripe-resize", "shared-weights", "buffer-stress", "mixed-width"]
     return campaign.gen_cases(tier, seed, 3, 420, 12000, families=fams, cfg_hook=cfg_hook)
 
 
